@@ -3,7 +3,7 @@ CONSTANTS
   MaxWithdrawalTx = 8
   Network = "regtest"
   Debug = TRUE
-  Bind = {"v.hashes", "v.pubkey", "v.deposits", "v.process", "v.replace", "v.finalize", "v.approve", "blockmsg", "deposits", "withdrawals", "queue", "params"}
+  Bind = {"v.hashes", "v.pubkey", "v.deposits", "v.process", "v.replace", "v.finalize", "v.approve", "blockmsg", "deposits", "withdrawals", "refunds", "queue", "params"}
 INIT TInit
 NEXT TNext
 INVARIANTS CreditedOnce CreditedPositive NotifiedOnce ParamsSafeInv QueueOk
